@@ -171,7 +171,7 @@ def run_history(res, exe, rng, first):
     m = SyncModel(nid, freq, cob0, cyc0)
     script = []
     acc = cons = 0
-    rpdo_val = 0x11
+    rv = [0x11]            # value of the object the synchronous RPDO writes
 
     def fail(key, msg, exp=None, obs=None):
         res.violation("c16/" + key, "node %d %d Hz 1005h=%x 1006h=%d tpdo type %d: %s | script: %s" % (nid, freq, cob0, cyc0, ttype, msg, "; ".join(script[-7:])),
@@ -190,7 +190,29 @@ def run_history(res, exe, rng, first):
             return "invariant " + iv
         if sim.tick == t0:
             return "SYNC produced outside timer processing" if emitted else None
-        return m.check_ticks(t0, sim.tick, emitted)
+        err = m.check_ticks(t0, sim.tick, emitted)
+        if err:
+            return err
+        # a SYNC the node produces itself is a SYNC for its own synchronous PDOs, too: in OPERATIONAL every produced SYNC advances
+        # the schedule of the synchronous TPDO once and applies a buffered synchronous RPDO
+        tp = {}
+        for (t, cid, dlc, d, f) in S.txs(evs):
+            if cid == 0x180 + nid and cid != m.sid():
+                tp[t] = tp.get(t, 0) + 1
+        want = {}
+        if m.mode == OP:
+            for t in sorted(emitted):
+                for _ in range(emitted[t]):
+                    m.tsync += 1
+                    if m.tsync == ttype:
+                        m.tsync = 0
+                        want[t] = want.get(t, 0) + 1
+                    if m.rpdo_pending is not None:
+                        rv[0] = m.rpdo_pending
+                        m.rpdo_pending = None
+        if tp != want:
+            return "synchronous TPDO (type %d) frames at ticks %r, reference %r for the SYNCs produced at %r" % (ttype, sorted(tp.items())[:6], sorted(want.items())[:6], sorted(emitted)[:8])
+        return None
 
     try:
         for i in range(rng.choice([25, 50, 90])):
@@ -275,7 +297,7 @@ def run_history(res, exe, rng, first):
                                 if m.tsync == ttype:
                                     m.tsync = 0
                                 if m.rpdo_pending is not None:
-                                    rpdo_val = m.rpdo_pending
+                                    rv[0] = m.rpdo_pending
                                     m.rpdo_pending = None
                         ncan = len(S.cbs(evs, "canrx"))
                         if is_sync == bool(ncan):
@@ -335,7 +357,7 @@ def run_history(res, exe, rng, first):
                         m.tsync = 0
                         want_tx = [(0x180 + nid, bytes([0x42]))]
                     if m.rpdo_pending is not None:
-                        rpdo_val = m.rpdo_pending
+                        rv[0] = m.rpdo_pending
                         m.rpdo_pending = None
                     got = [(c, d) for (t, c, dlc, d, f) in S.txs(evs)]
                     if got != want_tx:
@@ -362,7 +384,7 @@ def run_history(res, exe, rng, first):
                             m.tsync = 0
                             want_tx = [(0x180 + nid, bytes([0x42]))]
                         if m.rpdo_pending is not None:
-                            rpdo_val = m.rpdo_pending
+                            rv[0] = m.rpdo_pending
                             m.rpdo_pending = None
                 got = [(c, d) for (t, c, dlc, d, f) in S.txs(evs)]
                 if got != want_tx:
@@ -374,8 +396,8 @@ def run_history(res, exe, rng, first):
                 if not is_sync and m.allowed() and ncan != 1 and cid != 0x200 + nid:
                     fail("consume/near-miss", "frame %x (SYNC id is %x) not handed to the application" % (cid, m.sid())); return
                 r = sim.ret("rd 2000 0 1")
-                if int(r[1], 16) != rpdo_val:
-                    fail("consume/rpdo", "object 2000h = %s, reference %x" % (r[1], rpdo_val)); return
+                if int(r[1], 16) != rv[0]:
+                    fail("consume/rpdo", "object 2000h = %s, reference %x" % (r[1], rv[0])); return
             else:
                 cs = rng.choice([1, 1, 2, 128, 130])
                 script.append("nmt %d" % cs)
